@@ -213,6 +213,15 @@ Proof.
   - rewrite <- (hit_plain _ k e Pl); [exact He|]. apply in_mid. left. reflexivity.
 Qed.
 
+Lemma parent_tf parts : parts <> [] -> tilde_free upper parts ->
+  tilde_free upper (parent parts) /\ ~ In 126 (upper (leaf parts)).
+Proof.
+  intros Hn TF. rewrite (parent_leaf parts Hn) in TF. apply Forall_app in TF. destruct TF as [T1 T2].
+  split; [exact T1|]. inversion T2; assumption.
+Qed.
+Lemma resolve_nonroot s parts r : resolve s parts = Ok r -> r <> RRoot -> parts <> [].
+Proof. intros R Hr ->. cbn in R. inversion R; subst. congruence. Qed.
+
 (* ---------------- children sub-trees when only one directory's records change ---------------- *)
 Lemma kids_same s depth s' depth' idx :
   TreeInv s depth -> TreeInv s' depth' -> in_store s idx ->
